@@ -467,3 +467,103 @@ func (e *Engine) successFromErrEdge(fn *ssa.Function, from, succ *ssa.BasicBlock
 	_ = from
 	return PathResult{}
 }
+
+// CheckStickyErrors: ERR-S — "sticky" error fields (a struct field of type
+// error that helper methods store an I/O result into instead of returning
+// it). After every call of such a setter, the field must be read before it
+// can be overwritten by the next setter call/store and before the enclosing
+// function returns (unless the enclosing function is itself a void setter,
+// in which case its callers carry the obligation).
+func (e *Engine) CheckStickyErrors(r *Report, pkgRel string) int {
+	pk := e.pkgTypes(pkgRel)
+	if pk == nil {
+		r.undecided("ANCHOR", pkgRel, "package not found")
+		return 0
+	}
+	type setterInfo struct{ fld *types.Var }
+	setters := map[*ssa.Function]*types.Var{}
+	var fns []*ssa.Function
+	for _, fn := range e.ScopeFuncs() {
+		if fnPkg(fn) == pk && e.IsLive(fn) {
+			fns = append(fns, fn)
+		}
+	}
+	isErrFieldStore := func(in ssa.Instruction) (*types.Var, bool, bool) {
+		st, ok := in.(*ssa.Store)
+		if !ok {
+			return nil, false, false
+		}
+		f, _, ok := fieldOfAddr(st.Addr)
+		if !ok || !isErrorType(f.Type()) {
+			return nil, false, false
+		}
+		fromCall := false
+		v := st.Val
+		if ex, ok := v.(*ssa.Extract); ok {
+			v = ex.Tuple
+		}
+		if _, ok := v.(*ssa.Call); ok {
+			fromCall = true
+		}
+		return f, true, fromCall
+	}
+	for _, fn := range fns {
+		if errResultIndex(fn) >= 0 {
+			continue
+		}
+		forEachInstr(fn, func(in ssa.Instruction) {
+			if f, ok, fromCall := isErrFieldStore(in); ok && fromCall {
+				setters[fn] = f
+			}
+		})
+	}
+	n := 0
+	for _, fn := range fns {
+		forEachCall(fn, func(s ssa.CallInstruction) {
+			c, ok := s.(*ssa.Call)
+			if !ok {
+				return
+			}
+			sc := c.Call.StaticCallee()
+			fld, isSetter := setters[sc]
+			if sc == nil || !isSetter {
+				return
+			}
+			n++
+			reads := func(in ssa.Instruction) bool {
+				v, ok := in.(ssa.Value)
+				if !ok {
+					return false
+				}
+				f, _, ok := loadedField(v)
+				return ok && f == fld
+			}
+			target := func(in ssa.Instruction) bool {
+				if f, ok, _ := isErrFieldStore(in); ok && f == fld {
+					return true
+				}
+				if cc, ok := in.(*ssa.Call); ok {
+					if g := cc.Call.StaticCallee(); g != nil {
+						if _, is := setters[g]; is {
+							return true
+						}
+					}
+				}
+				if _, isRet := in.(*ssa.Return); isRet {
+					_, selfSetter := setters[fn]
+					return !selfSetter
+				}
+				return false
+			}
+			res := e.findPath(fn, c, target, reads, nil)
+			var w []string
+			if res.Found {
+				w = []string{"lost at " + e.ipos(res.Target)}
+			}
+			r.check(!res.Found, "ERR-S", "sticky "+fld.Name()+" after "+fname(sc)+" in "+fname(fn)+" #"+itoa(n), e.ipos(s),
+				"the stored error is examined before it can be overwritten or the function returns",
+				"after "+fname(sc)+" the sticky error field can be overwritten or the function can return without anyone reading it: a failed write is reported as success", w...)
+		})
+	}
+	return n
+}
